@@ -11,10 +11,18 @@
     * `Sched`, `runSched`, `proj`: agents (goroutines) executing steps `(reads, writes, f)` on one
       store `Loc → α`; a schedule is an arbitrary interleaving.
 
-  What is proved: the OWNERSHIP DISCIPLINE makes interference impossible (`noninterference`), copy
+  What is proved: `copy_behaves_same` (general: two instances of one operation that share everything but their scratch
+  and read scratch only after writing it give the same results; `copy_behaves_same_row`: from a table row whose fields are
+  kept or `owned`), the OWNERSHIP DISCIPLINE makes interference impossible (`noninterference`), copy
   constructors following their row produce fresh, pairwise distinct addresses for `owned` fields
   (`copy_owned_fresh`), equal `config` fields (`copy_config_eq`), and deep copies share no address
   with the original (`deep_copy_disjoint`).
+
+  Completeness of the table: every `table` line is produced by a reflection walk over ALL fields of the struct, so a field
+  the model does not classify breaks the tie; `table_complete/*` probes scan the source under test for every copy
+  constructor and require a row (or a listed exemption: slice / map receivers); `table_names_nodup`,
+  `table_rows_strictly_sorted`.  Ring-level views (`AtLevel`, `ConjugateInvariantRing`, `StandardRing`, `ringqp.Ring.AtLevel`)
+  have rows on the full ring and on views, and probes at every level.
 
   What the model CANNOT exhibit — named limits:
     * the Go memory model: `runSched` is sequentially consistent and steps are atomic.  A data race
@@ -64,6 +72,7 @@
       `rng` class of `prng` and the `nested` samplers: by construction a shallow copy has fresh randomness).
 -/
 import Lattigo.Proofs.Copy
+import Lattigo.Proofs.CopyBehave
 
 namespace Lattigo.Props.C10
 open Lattigo.Copy
@@ -154,6 +163,55 @@ theorem noninterference_needs_readonly_counterexample :
     · simp at h1
   · simp [runSched, proj, Step.apply]
 
+/-- COPY BEHAVES SAME, general form (Proofs/CopyBehave.lean): an operation is a template program over symbolic objects
+    (fields of the receiver, objects of the caller); the original and the copy are two INSTANCES `ρ1`, `ρ2` of it that
+    refer to the same memory outside the scratch objects `S` (what `config` / `sharedRO` fields are) and to different
+    scratch memory (what `owned` fields are).  If the operation reads scratch only after writing it, then on one shared
+    store — whatever either scratch holds — every non-scratch location holds the same content after the two runs. -/
+theorem copy_behaves_same {α : Type} (I : Store.Interp α) (T : Store.Prog) (S : Nat → Prop) (ρ1 ρ2 : Nat → Nat)
+    (h1 : ∀ a b, ρ1 a = ρ1 b → a = b) (h2 : ∀ a b, ρ2 a = ρ2 b → a = b) (hsame : ∀ a, ¬ S a → ρ1 a = ρ2 a)
+    (hreads : Store.Reads (fun x => ¬ S x.obj) T) (σ : Store.Store α) (x : Store.Loc)
+    (hx : ¬ S x.obj ∨ Store.Written T x) :
+    Store.run I (T.map (Store.Step.ren (Store.liftObj ρ1))) σ (Store.liftObj ρ1 x) =
+    Store.run I (T.map (Store.Step.ren (Store.liftObj ρ2))) σ (Store.liftObj ρ2 x) :=
+  Store.instances_behave_same I T S ρ1 ρ2 h1 h2 hsame hreads σ x hx
+
+/-- … and for a ROW of the table: `o` an object, `applyCtor r next fresh o` its copy by a constructor that follows the
+    row; every field is kept (`config`, `sharedRO`, `absent`, …: `FieldClass.keeps`) or is `owned` scratch; the operation
+    reads scratch only after writing it.  Then the original and the copy leave the same content in every location of
+    every kept field and of every object of the caller. -/
+theorem copy_behaves_same_row {α : Type} (I : Store.Interp α) (r : Row) (next fresh : Nat) (o : Obj) (ext : Nat → Nat)
+    (T : Store.Prog)
+    (hcls : ∀ f ∈ o, (classOf r f.name).keeps = true ∨ classOf r f.name = .owned)
+    (hinj : ∀ a b, instMap o ext a = instMap o ext b → a = b)
+    (hinj' : ∀ a b, instMap (applyCtor r next fresh o) ext a = instMap (applyCtor r next fresh o) ext b → a = b)
+    (hreads : Store.Reads (fun x => ¬ (∃ f, o[x.obj]? = some f ∧ classOf r f.name = .owned)) T)
+    (σ : Store.Store α) (x : Store.Loc) (hx : ¬ (∃ f, o[x.obj]? = some f ∧ classOf r f.name = .owned)) :
+    Store.run I (T.map (Store.Step.ren (Store.liftObj (instMap o ext)))) σ (Store.liftObj (instMap o ext) x) =
+    Store.run I (T.map (Store.Step.ren (Store.liftObj (instMap (applyCtor r next fresh o) ext)))) σ
+      (Store.liftObj (instMap (applyCtor r next fresh o) ext) x) :=
+  row_copy_behaves_same I r next fresh o ext T hcls hinj hinj' hreads σ x hx
+
+/-- non-vacuity: the row `rlwe.Decryptor.ShallowCopy` and Decrypt of a coefficient-domain ciphertext (the one operation
+    that uses the Decryptor's scratch polynomial): all hypotheses hold, the caller's plaintext is the same. -/
+example (α : Type) (I : Store.Interp α) (σ : Store.Store α) (f : Nat) :=
+  exDec_behaves_same α I σ f
+
+example : lookup "rlwe.Decryptor.ShallowCopy" = some exRow := by decide
+
+/-- the hypothesis "scratch is written before it is read" cannot be dropped: an operation that READS the scratch field
+    first returns whatever each scratch held. -/
+theorem copy_behaves_same_needs_scratch_discipline :
+    ∃ (σ : Store.Store Int),
+      Store.run Store.intI ([Store.st (Store.L 5 0) .copy [Store.L 0 0]].map (Store.Step.ren (Store.liftObj (instMap exDec exExt)))) σ ⟨1003, 0⟩ ≠
+      Store.run Store.intI ([Store.st (Store.L 5 0) .copy [Store.L 0 0]].map
+        (Store.Step.ren (Store.liftObj (instMap (applyCtor exRow 300 0 exDec) exExt)))) σ ⟨1003, 0⟩ :=
+  ⟨⟨fun l => l.obj⟩, by decide⟩
+
+/-- every row lists its fields in strictly increasing order of name (the order the reflection walk prints): no field is
+    classified twice.  (TEST by evaluation of the table.) -/
+theorem table_rows_strictly_sorted : table.all (fun (_, r) => (r.map (·.1)).Pairwise (· < ·)) = true := by decide
+
 /-- the rows of the table that leave the discipline (TEST by evaluation of the table, which is the
     model): exactly the constructors sharing scratch buffers or PRNG state; all shallow copies
     (`ShallowCopy`) and deep copies are concurrent-safe. -/
@@ -201,6 +259,10 @@ end Lattigo.Props.C10
 #print axioms Lattigo.Props.C10.deep_copy_disjoint
 #print axioms Lattigo.Props.C10.noninterference
 #print axioms Lattigo.Props.C10.noninterference_needs_readonly_counterexample
+#print axioms Lattigo.Props.C10.copy_behaves_same
+#print axioms Lattigo.Props.C10.copy_behaves_same_row
+#print axioms Lattigo.Props.C10.copy_behaves_same_needs_scratch_discipline
+#print axioms Lattigo.Props.C10.table_rows_strictly_sorted
 #print axioms Lattigo.Props.C10.table_names_nodup
 #print axioms Lattigo.Props.C10.lookup_mem
 #print axioms Lattigo.Props.C10.not_concurrentSafe_rows_eq
